@@ -26,6 +26,12 @@ CASES = [
     (6, {"type": "object", "properties": {"x": {"type": "integer", "minimum": 5}, "y": {"anyOf": [{"type": "string"}, {"minimum": 9}]}}}, {"x": 1.5, "y": 1}),
     (7, {"type": "integer", "enum": [1], "minimum": 7}, "s"),
     (7, {"properties": {"0": {"type": "integer"}}, "items": {"type": "integer"}}, {"0": "x"}),
+    # distinct paths whose textual renderings coincide under some separator (a location memo keyed by a joined string)
+    (7, {"properties": {"a/b": {"type": "integer"}, "a": {"properties": {"b": {"type": "integer"}}}}}, {"a/b": "x", "a": {"b": "y"}}),
+    (7, {"type": "object", "maxProperties": 0, "properties": {"": {"type": "integer"}}}, {"": "x"}),
+    (7, {"properties": {"a": {"properties": {"1": {"type": "integer"}}, "items": {"type": "integer"}}, "b": {"items": {"type": "integer"}}, "b/1": {"type": "integer"}}},
+     {"a": {"1": "x"}, "b": [0, "y"], "b/1": "z"}),
+    (4, {"properties": {"": {"properties": {"": {"type": "integer"}}}, "/": {"type": "integer"}}}, {"": {"": "x"}, "/": "y"}),
 ]
 
 
@@ -125,6 +131,13 @@ def search(job):
     VE = exceptions.ValidationError
     made = [[VE("a", validator="k", path=[0, "x"], instance=1), VE("b", validator="k", path=[0, "x"], instance=1), VE("c", validator="j", path=[0], instance={"x": 1})],
             [VE("a", validator="k", path=["p", 1, "q"], instance=1), VE("b", validator="k", path=[], instance={"p": [0, {"q": 1}]}), VE("c", validator="m", path=["p"], instance=[0, {"q": 1}])]]
+    # pairs of different paths that a joined-string key would identify, for several separators; and int vs digit-string elements
+    for sep in ("/", ".", ",", " ", "", "\x00", "', '", "][", "->", ":"):
+        made.append([VE("a", validator="k", path=["a", "b"], instance=1), VE("b", validator="k", path=["a" + sep + "b"], instance=2)])
+    made.append([VE("a", validator="k", path=[], instance=1), VE("b", validator="k", path=[""], instance=2)])
+    made.append([VE("a", validator="k", path=[0], instance=1), VE("b", validator="k", path=["0"], instance=2)])
+    made.append([VE("a", validator="k", path=["a", 1], instance=1), VE("b", validator="k", path=["a", "1"], instance=2)])
+    made.append([VE("a", validator="k", path=["", ""], instance=1), VE("b", validator="k", path=[""], instance=2), VE("c", validator="k", path=[], instance=3)])
     for m in made:
         for perm in itertools.permutations(range(len(m))):
             tried += 1
